@@ -521,6 +521,225 @@ func countsOK(bd []int) bool {
 	return true
 }
 
+// MaxLenFEN builds valid positions whose FEN text has the longest possible placement field (71
+// characters): all 32 men on the board, every rank holding 4 men with single empty squares between.
+func MaxLenFEN(rng *rand.Rand) string {
+	for {
+		bd := make([]int, 64)
+		var back, rest []int
+		pcs := []int{6, 5, 4, 4, 3, 3, 2, 2, 14, 13, 12, 12, 11, 11, 10, 10}
+		rng.Shuffle(len(pcs), func(i, j int) { pcs[i], pcs[j] = pcs[j], pcs[i] })
+		back = pcs[:8]
+		rest = append(rest, pcs[8:]...)
+		for i := 0; i < 8; i++ {
+			rest = append(rest, 1, 9)
+		}
+		rng.Shuffle(len(rest), func(i, j int) { rest[i], rest[j] = rest[j], rest[i] })
+		for r := 0; r < 8; r++ {
+			off := rng.Intn(2)
+			for k := 0; k < 4; k++ {
+				sq := r*8 + off + 2*k
+				if r == 0 || r == 7 {
+					bd[sq], back = back[0], back[1:]
+				} else {
+					bd[sq], rest = rest[0], rest[1:]
+				}
+			}
+		}
+		wk, bk := kingSq(bd, 0), kingSq(bd, 1)
+		if abs(wk%8-bk%8) <= 1 && abs(wk/8-bk/8) <= 1 {
+			continue
+		}
+		stm := rng.Intn(2)
+		if Attacked(bd, kingSq(bd, 1-stm), stm) {
+			continue
+		}
+		return FEN(bd, stm, 0, -1, rng.Intn(60), 1+rng.Intn(200))
+	}
+}
+
+// transform applies a random symmetry of the rules to a white-to-move construction: file mirror and/or
+// colour flip (ranks reversed, colours swapped, side to move swapped).
+func transform(rng *rand.Rand, bd []int, stm int) ([]int, int) {
+	if rng.Intn(2) == 0 {
+		nb := make([]int, 64)
+		for s, p := range bd {
+			nb[s/8*8+7-s%8] = p
+		}
+		bd = nb
+	}
+	if rng.Intn(2) == 0 {
+		nb := make([]int, 64)
+		for s, p := range bd {
+			if p != 0 {
+				nb[(7-s/8)*8+s%8] = p ^ 8
+			}
+		}
+		bd, stm = nb, 1-stm
+	}
+	return bd, stm
+}
+
+// NoQuiet builds positions in which the side to move has NO quiet pseudo-legal move at all - king boxed in
+// by its own men in a corner, pawns blocked, the boxed-in piece able only to capture - but has captures,
+// most of them losing material. Everything a move orderer defers "behind the quiet moves" is then all there is.
+func NoQuiet(rng *rand.Rand) string {
+	for {
+		bd := make([]int, 64)
+		sq := func(f, r int) int { return r*8 + f }
+		blackPiece := func(pawnOK bool) int {
+			if pawnOK && rng.Intn(2) == 0 {
+				return 9
+			}
+			return []int{10, 11, 12, 13}[rng.Intn(4)]
+		}
+		bd[sq(7, 0)] = 6 // Kh1
+		bd[sq(6, 1)], bd[sq(7, 1)] = 1, 1
+		bd[sq(6, 2)], bd[sq(7, 2)] = blackPiece(true), blackPiece(true)
+		switch rng.Intn(3) {
+		case 0: // Bg1: f2 taken by an enemy man
+			bd[sq(6, 0)] = 3
+			bd[sq(5, 1)] = blackPiece(true)
+		case 1: // Rg1: f1 taken by an enemy piece
+			bd[sq(6, 0)] = 4
+			bd[sq(5, 0)] = blackPiece(false)
+		default: // Ng1: e2, f3 (and h3) taken by enemy men
+			bd[sq(6, 0)] = 2
+			bd[sq(4, 1)] = blackPiece(true)
+			bd[sq(5, 2)] = blackPiece(true)
+		}
+		// locked pawn pairs elsewhere: no quiet move either
+		for f := 0; f < 5; f++ {
+			if rng.Intn(3) == 0 {
+				r := 1 + rng.Intn(5)
+				if bd[sq(f, r)] == 0 && bd[sq(f, r+1)] == 0 && r+1 <= 6 {
+					bd[sq(f, r)], bd[sq(f, r+1)] = 1, 9
+				}
+			}
+		}
+		// the other king, and a few more enemy men
+		bk := rng.Intn(64)
+		if bd[bk] != 0 || (abs(bk%8-7) <= 1 && bk/8 <= 1) {
+			continue
+		}
+		bd[bk] = 14
+		for i := rng.Intn(3); i > 0; i-- {
+			s := rng.Intn(64)
+			if bd[s] == 0 {
+				p := blackPiece(true)
+				if p == 9 && (s/8 == 0 || s/8 == 7) {
+					continue
+				}
+				bd[s] = p
+			}
+		}
+		if !countsOK(bd) || Attacked(bd, bk, 0) {
+			continue
+		}
+		nb, stm := transform(rng, bd, 0)
+		return FEN(nb, stm, 0, -1, rng.Intn(30), 1+rng.Intn(80))
+	}
+}
+
+// SparseEndgame builds few-men positions of the material classes for which evaluation functions carry
+// special rules (insufficient material with any number of minor pieces, bishop and rook pawns against the
+// bare king, stacked pawns, minor piece endings), the bare king biased towards the corners.
+func SparseEndgame(rng *rand.Rand) string {
+	for {
+		bd := make([]int, 64)
+		c := rng.Intn(2) // the stronger side
+		var strong, weak []int
+		pawnFile := -1
+		switch rng.Intn(7) {
+		case 0: // bishop + pawns on one rook file
+			strong = []int{3}
+			pawnFile = []int{0, 7}[rng.Intn(2)]
+		case 1: // knight or bishop + pawns on one file
+			strong = []int{[]int{2, 3}[rng.Intn(2)]}
+			pawnFile = rng.Intn(8)
+		case 2: // pawns on one file only
+			pawnFile = rng.Intn(8)
+		case 3: // any number of minor pieces on both sides, no pawns
+			for i := rng.Intn(7); i > 0; i-- {
+				strong = append(strong, 3)
+			}
+			for i := rng.Intn(4); i > 0; i-- {
+				strong = append(strong, 2)
+			}
+			for i := rng.Intn(3); i > 0; i-- {
+				weak = append(weak, []int{2, 3}[rng.Intn(2)])
+			}
+		case 4: // knight + bishop
+			strong = []int{2, 3}
+		case 5: // heavy piece against minor pieces
+			strong = []int{[]int{4, 5}[rng.Intn(2)]}
+			for i := rng.Intn(3); i > 0; i-- {
+				weak = append(weak, []int{2, 3, 4}[rng.Intn(3)])
+			}
+		default: // a pawn or two each
+			pawnFile = rng.Intn(8)
+			weak = []int{1}
+		}
+		place := func(p int) bool {
+			for try := 0; try < 50; try++ {
+				s := rng.Intn(64)
+				if bd[s] != 0 || (p%8 == 1 && (s/8 == 0 || s/8 == 7)) {
+					continue
+				}
+				bd[s] = p
+				return true
+			}
+			return false
+		}
+		// kings: the weaker one near a corner half of the time
+		wk := rng.Intn(64)
+		if rng.Intn(2) == 0 {
+			f, r := rng.Intn(2), rng.Intn(2) // within one of a corner
+			if rng.Intn(2) == 0 {
+				f = 7 - f
+			}
+			if rng.Intn(2) == 0 {
+				r = 7 - r
+			}
+			wk = r*8 + f
+		}
+		sk := rng.Intn(64)
+		if wk < 0 || wk > 63 || wk == sk || (abs(wk%8-sk%8) <= 1 && abs(wk/8-sk/8) <= 1) {
+			continue
+		}
+		bd[sk], bd[wk] = 8*c+6, 8*(1-c)+6
+		ok := true
+		if pawnFile >= 0 {
+			for i := 1 + rng.Intn(3); i > 0; i-- {
+				r := 1 + rng.Intn(6)
+				if rng.Intn(3) == 0 {
+					r = []int{6, 1}[c] // about to promote
+				}
+				if bd[r*8+pawnFile] == 0 {
+					bd[r*8+pawnFile] = 8*c + 1
+				}
+			}
+		}
+		for _, p := range strong {
+			ok = ok && place(8*c+p)
+		}
+		for _, p := range weak {
+			ok = ok && place(8*(1-c)+p)
+		}
+		if !ok || !countsOK(bd) {
+			continue
+		}
+		stm := rng.Intn(2)
+		if Attacked(bd, kingSq(bd, 1-stm), stm) {
+			stm = 1 - stm
+			if Attacked(bd, kingSq(bd, 1-stm), stm) {
+				continue
+			}
+		}
+		return FEN(bd, stm, 0, -1, rng.Intn(50), 1+rng.Intn(90))
+	}
+}
+
 // BoxedKing builds positions in which the king of the side to move has no safe move, so that the
 // answer of the checkmate / stalemate tests hinges on the other pieces: pawn pushes and captures
 // (edge files included), double-push blocks, pinned defenders, en-passant resolutions.
